@@ -37,6 +37,9 @@ pub fn gen_crash_base(seed: u64, mode: Mode) -> Plan {
     // almost every time, so that blocks of different topics are handed out back to back while
     // earlier ones are still being written
     let race_mode = mode == Mode::C07 && rng.chance(0.2);
+    // C09 "rotation race": the same shape with one producer-and-consumer thread per topic, so that a consumer's
+    // durable position can name a block that was handed out after a block whose first store is cut short later
+    let race_mode = race_mode || (mode == Mode::C09 && rng.chance(0.25));
     let n_topics = if race_mode { rng.range(2, 3) as usize } else { rng.range(1, 2) as usize };
     let mut pool: Vec<&str> = TOPIC_POOL[..5].to_vec();
     let mut topics = Vec::new();
@@ -178,7 +181,7 @@ pub fn gen_crash_base(seed: u64, mode: Mode) -> Plan {
     if mode == Mode::C09 && rng.chance(0.45) {
         // C09: the recovered process keeps producing and consuming (so that its durable position is in whatever
         // form the recovered state gives it), then stops - with or without a clean close - before the verifier
-        profile = "crash+post";
+        profile = if race_mode { "crash+post+race" } else { "crash+post" };
         let mut pops = vec![open(&mut ids)];
         for _ in 0..rng.range(2, 10) {
             let t = rng.below(n_topics as u64) as u32;
@@ -784,7 +787,7 @@ impl Scenario for CrashScenario {
             .filter(|p| match self.mode {
                 Mode::C08 => p.op == target_op,
                 // rotation race: the interesting instants are the data writes themselves
-                Mode::C07 if base.profile.contains("+race") && base.incarnations[crash_inc].backend == "mmap" => p.kind == "Store",
+                Mode::C07 | Mode::C09 if base.profile.contains("+race") && base.incarnations[crash_inc].backend == "mmap" => p.kind == "Store",
                 _ => true,
             })
             .collect();
